@@ -1,7 +1,7 @@
 (** Correspondence and property oracles for Spec.Step / Spec.Walk
     (C04-C08, C18): what the generated cases_step_*.v / cases_walk_*.v files
     evaluate.  Each property compares only the observables it is about. *)
-From Sheens Require Export Corr.Base Spec.Contain Model.Action.
+From Sheens Require Export Corr.Base Spec.Contain Model.Action Spec.WalkSpec.
 
 Inductive go_err : Type :=
 | GNone | GNotCompiled | GUnknownNode | GUncompiled | GBadBranching | GTooMany | GOther.
@@ -21,25 +21,6 @@ Record scase : Type := mk_scase {
   sc_shared : bool;      (* a returned state shares its bindings map with the input *)
   sc_repeat : bool       (* two identical calls gave equal results *)
 }.
-
-Definition opt_eqb {A : Type} (eqb : A -> A -> bool) (a b : option A) : bool :=
-  match a, b with
-  | Some x, Some y => eqb x y
-  | None, None => true
-  | _, _ => false
-  end.
-Fixpoint list_eqb {A : Type} (eqb : A -> A -> bool) (a b : list A) : bool :=
-  match a, b with
-  | [], [] => true
-  | x :: r, y :: s => eqb x y && list_eqb eqb r s
-  | _, _ => false
-  end.
-Definition state_eqb (a b : state) : bool :=
-  String.eqb (st_node a) (st_node b) && opt_eqb bindings_eqb (st_bs a) (st_bs b).
-Definition stride_eqb (a b : stride) : bool :=
-  state_eqb (sd_from a) (sd_from b) && opt_eqb state_eqb (sd_to a) (sd_to b)
-  && opt_eqb json_eqb (sd_consumed a) (sd_consumed b)
-  && list_eqb json_eqb (sd_emitted a) (sd_emitted b).
 
 Definition err_class (e : option step_err) : go_err :=
   match e with
@@ -230,27 +211,6 @@ Definition c05_proj (a b : stride) : bool :=
 Definition c05_mismatches (cases : list wcase) : list nat :=
   bad_indexes (fun c => negb (walk_agrees c05_proj c)) 0 cases.
 
-Fixpoint consumed_of (sds : list stride) : list json :=
-  match sds with
-  | [] => []
-  | sd :: r => match sd_consumed sd with Some m => m :: consumed_of r | None => consumed_of r end
-  end.
-Fixpoint strip_prefix (pre l : list json) : option (list json) :=
-  match pre, l with
-  | [], _ => Some l
-  | x :: p, y :: r => if json_eqb x y then strip_prefix p r else None
-  | _ :: _, [] => None
-  end.
-Fixpoint chain_ok (prev : state) (sds : list stride) : bool :=
-  match sds with
-  | [] => true
-  | sd :: r =>
-      state_eqb (sd_from sd) (copy_state prev)
-      && chain_ok (match sd_to sd with Some t => t | None => prev end) r
-  end.
-Definition final_state (st : state) (sds : list stride) : state :=
-  fold_left (fun acc sd => match sd_to sd with Some t => copy_state t | None => acc end) sds st.
-
 (** the clauses of C05 decided on what the implementation returned *)
 Definition c05_ok (c : wcase) : bool :=
   match wc_go c with
@@ -285,7 +245,7 @@ Definition c05_ok (c : wcase) : bool :=
              | InternalError => false
              end
           && chain_ok (wc_st c) sds
-          && wc_split c
+          && (wc_split c || snd (model_walk c))   (* the choice among several guard candidates is arbitrary *)
           && negb err
       end
   | _ => false
